@@ -254,6 +254,7 @@ func (prop) Gen(r *rand.Rand, tier string) []core.Case {
 		scale = 6
 	}
 	genCbnt(g, scale)
+	genManifest(g, scale)
 	genPsb(g, scale)
 	// every prefix of the list is a sample of all kinds (the tie-break search of ./check runs the
 	// thorough generator with a case limit)
@@ -267,6 +268,8 @@ func (prop) Run(c core.Case) core.Outcome {
 	switch c.Op {
 	case "hashsupp", "pubkey", "sigdata", "setsigdata", "fillsig", "sign", "verify", "bpmkey", "ibb":
 		runCbnt(x, c, thorough)
+	case "manifest":
+		runManifest(x, c.Args, thorough)
 	case "psbkey", "dbkey", "signedblob", "tokenkey", "pspentry", "firmware":
 		runPsb(x, c, thorough)
 	default:
